@@ -143,14 +143,19 @@ OuterSyncLoop:
 			err = tx.Commit()
 			if err != nil {
 				hLog.WithError(err).Errorf("unable to commit transaction")
+				// A failed COMMIT ends the transaction: the driver has rolled it
+				// back and database/sql answers ErrTxDone to Rollback. That is
+				// the normal outcome here, not a reason to give up: the height
+				// is simply tried again.
 				err = tx.Rollback()
-				if err != nil {
+				if err != nil && err != sql.ErrTxDone {
 					// TODO evaluate if we can recover from this point or not
 					hLog.WithError(err).Fatal("unable to roll back transaction")
 				}
-			} else {
-				d.Sync.Synced = synced.Synced
+				time.Sleep(retryPeriod)
+				continue OuterSyncLoop
 			}
+			d.Sync.Synced = synced.Synced
 
 			elapsed := time.Since(start)
 			hLog.WithFields(log.Fields{"took": elapsed}).Debugf("synced")
